@@ -194,9 +194,17 @@ def run_argon(job):
         s.cmd("ksf_new", id="cheapA2", param={"m": 64, "t": 1, "p": 1})
         s.cmd("ksf_new", id="cheapB", param={"m": 64, "t": 2, "p": 1})
         s.cmd("ksf_new", id="cheapC", param={"m": 128, "t": 1, "p": 1})
-        key = {None: "default", "def": "default", "cheapA": "A", "cheapA2": "A", "cheapB": "B", "cheapC": "C"}
-        regm = [None, "def", "cheapA", "cheapB"] if tier == "quick" else [None, "def", "cheapA", "cheapB", "cheapC"]
-        logm = [None, "def", "cheapA", "cheapA2", "cheapB", "cheapC"]
+        # instances that differ from cheapA ONLY in lanes / variant / version / secret
+        s.cmd("ksf_new", id="lanes2", param={"m": 64, "t": 1, "p": 2})
+        s.cmd("ksf_new", id="algI", param={"m": 64, "t": 1, "p": 1, "alg": "i"})
+        s.cmd("ksf_new", id="algD", param={"m": 64, "t": 1, "p": 1, "alg": "d"})
+        s.cmd("ksf_new", id="ver10", param={"m": 64, "t": 1, "p": 1, "ver": 16})
+        s.cmd("ksf_new", id="secret", param={"m": 64, "t": 1, "p": 1, "secret": "70657070657270657070657221"})
+        s.cmd("ksf_new", id="secret2", param={"m": 64, "t": 1, "p": 1, "secret": "70657070657270657070657221"})
+        key = {None: "default", "def": "default", "cheapA": "A", "cheapA2": "A", "cheapB": "B", "cheapC": "C", "lanes2": "L2", "algI": "I", "algD": "D",
+               "ver10": "V10", "secret": "S", "secret2": "S"}
+        regm = [None, "def", "cheapA", "cheapB", "secret"] if tier == "quick" else [None, "def", "cheapA", "cheapB", "cheapC", "lanes2", "algI", "ver10", "secret"]
+        logm = [None, "def", "cheapA", "cheapA2", "cheapB", "cheapC", "lanes2", "algI", "algD", "ver10", "secret", "secret2"]
         pw = b"argon-password"
         for rm in regm:
             rng = s.rng("r", proto.H("c15a", su, job["seed"]))
